@@ -105,12 +105,9 @@ def readDbcs (len : Nat) (highByte : Bool) (data : Bytes) (cont : List Bytes) : 
       match cont with
       | [] => .err "EoStream:dbcs"
       | [] :: _ => .err "EoStream:dbcs"   -- `r.continue_record() && !r.data.is_empty()` (guard added by the D31-b fix)
-      | (b :: rest) :: fs =>
-        match readDbcs (len - d.2.1) (flagHigh b) rest fs with
-        | .ok (t, r) => .ok (txt ++ t, r)
-        | .err e => .err e
-        | .panic e => .panic e
-        | .outOfFuel => .outOfFuel
+      | (b :: rest) :: fs => do
+        let (t, r) ← readDbcs (len - d.2.1) (flagHigh b) rest fs
+        pure (txt ++ t, r)
 
 /-- `Record::skip(len)`. One call = the loop iterations spent in one fragment: if the current
     fragment holds `len` bytes they are dropped, otherwise it is used up and the loop goes on in the next
@@ -126,60 +123,45 @@ def skip (len : Nat) (data : Bytes) (cont : List Bytes) : Res Rd :=
 /-- `read_i32(..) as usize` on a 64-bit target: negative values sign-extend -/
 def i32AsUsize (v : Nat) : Nat := if v < 2147483648 then v else 18446744069414584320 + v
 
-/-- `read_rich_extended_string` (XLUnicodeRichExtendedString) -/
-def readRich (r : Rd) : Res (List Nat × Rd) :=
-  -- `r.data.is_empty() && !r.continue_record() || r.data.len() < 3`
-  let r1 : Option Rd := if r.data.isEmpty then continueRecord r else some r
-  match r1 with
-  | none => .err "Len:rich extended string:3:0"
-  | some r =>
-    if r.data.length < 3 then .err s!"Len:rich extended string:3:{r.data.length}"
+/-- `read_rich_extended_string` once the fragment holding the string header has been fetched -/
+def readRichAt (r : Rd) : Res (List Nat × Rd) :=
+  if r.data.length < 3 then .err s!"Len:rich extended string:3:{r.data.length}"
+  else
+    let cch := u16 r.data
+    let flags := (r.data.getD 2 0).toNat
+    let data := r.data.drop 3
+    let highByte := flags % 2 == 1
+    let rich := flags / 8 % 2 == 1
+    let ext := flags / 4 % 2 == 1
+    -- `read_u16(r.data)` / `read_i32(r.data)` slice-index the remaining fragment: panic when short
+    if rich && data.length < 2 then .panic "read_rich_extended_string: cRun"
     else
-      let cch := u16 r.data
-      let flags := (r.data.getD 2 0).toNat
-      let data := r.data.drop 3
-      let highByte := flags % 2 = 1
-      let rich := flags / 8 % 2 = 1
-      let ext := flags / 4 % 2 = 1
-      -- `read_u16(r.data)` / `read_i32(r.data)` slice-index the remaining fragment: panic when short
-      if rich && data.length < 2 then .panic "read_rich_extended_string: cRun"
+      let cRun := if rich then u16 data else 0
+      let data := if rich then data.drop 2 else data
+      if ext && data.length < 4 then .panic "read_rich_extended_string: cbExtRst"
       else
-        let cRun := if rich then u16 data else 0
-        let data := if rich then data.drop 2 else data
-        if ext && data.length < 4 then .panic "read_rich_extended_string: cbExtRst"
-        else
-          let cbExt := if ext then i32AsUsize (u32 data) else 0
-          let data := if ext then data.drop 4 else data
-          match readDbcs cch highByte data r.cont with
-          | .ok (s, r) =>
-            match skip (cRun * 4) r.data r.cont with
-            | .ok r =>
-              match skip cbExt r.data r.cont with
-              | .ok r => .ok (s, r)
-              | .err e => .err e
-              | .panic e => .panic e
-              | .outOfFuel => .outOfFuel
-            | .err e => .err e
-            | .panic e => .panic e
-            | .outOfFuel => .outOfFuel
-          | .err e => .err e
-          | .panic e => .panic e
-          | .outOfFuel => .outOfFuel
+        let cbExt := if ext then i32AsUsize (u32 data) else 0
+        let data := if ext then data.drop 4 else data
+        do
+          let (s, r) ← readDbcs cch highByte data r.cont
+          let r ← skip (cRun * 4) r.data r.cont
+          let r ← skip cbExt r.data r.cont
+          pure (s, r)
+
+/-- `read_rich_extended_string` (XLUnicodeRichExtendedString).
+    First line of the Rust function: `r.data.is_empty() && !r.continue_record() || r.data.len() < 3`. -/
+def readRich (r : Rd) : Res (List Nat × Rd) :=
+  match (if r.data.isEmpty then continueRecord r else some r) with
+  | none => .err "Len:rich extended string:3:0"
+  | some r => readRichAt r
 
 /-- the `for _ in 0..len` loop of `parse_sst` -/
 def readStrings : Nat → Rd → Res (List (List Nat))
   | 0, _ => .ok []
-  | n + 1, r =>
-    match readRich r with
-    | .ok (s, r) =>
-      match readStrings n r with
-      | .ok ss => .ok (s :: ss)
-      | .err e => .err e
-      | .panic e => .panic e
-      | .outOfFuel => .outOfFuel
-    | .err e => .err e
-    | .panic e => .panic e
-    | .outOfFuel => .outOfFuel
+  | n + 1, r => do
+    let (s, r) ← readRich r
+    let ss ← readStrings n r
+    pure (s :: ss)
 
 /-- `parse_sst`: cstTotal (ignored), cstUnique, then that many strings -/
 def parseSst (r : Rec) : Res (List (List Nat)) :=
@@ -199,12 +181,9 @@ def gather : Nat → Bytes → Res (List Bytes × Bytes)
     if hasLen s 5 && u16 s = 0x3C then
       let len := u16 (s.drop 2)
       if !hasLen s (len + 4) then .err "EoStream:continue record length"
-      else
-        match gather fuel (s.drop (len + 4)) with
-        | .ok (fs, rest) => .ok ((s.take (len + 4)).drop 4 :: fs, rest)
-        | .err e => .err e
-        | .panic e => .panic e
-        | .outOfFuel => .outOfFuel
+      else do
+        let (fs, rest) ← gather fuel (s.drop (len + 4))
+        pure ((s.take (len + 4)).drop 4 :: fs, rest)
     else .ok ([], s)
 
 /-- `RecordIter::next`: `none` = end of stream. (`cont` is `Some(..)` exactly when the gathered list is non-empty.) -/
@@ -218,11 +197,9 @@ def nextRecord (s : Bytes) : Option (Res (Rec × Bytes)) :=
     else
       let d := (s.take (len + 4)).drop 4
       let next := s.drop (len + 4)
-      match gather (next.length / 4 + 1) next with
-      | .ok (cont, rest) => some (.ok (⟨t, d, cont⟩, rest))
-      | .err e => some (.err e)
-      | .panic e => some (.panic e)
-      | .outOfFuel => some .outOfFuel
+      some (do
+        let (cont, rest) ← gather (next.length / 4 + 1) next
+        pure (⟨t, d, cont⟩, rest))
 
 /-- all records of a stream (the `for r in RecordIter { stream }` loop, stopping at the first error) -/
 def records : Nat → Bytes → Res (List Rec)
@@ -230,15 +207,10 @@ def records : Nat → Bytes → Res (List Rec)
   | fuel + 1, s =>
     match nextRecord s with
     | none => .ok []
-    | some (.ok (r, rest)) =>
-      match records fuel rest with
-      | .ok rs => .ok (r :: rs)
-      | .err e => .err e
-      | .panic e => .panic e
-      | .outOfFuel => .outOfFuel
-    | some (.err e) => .err e
-    | some (.panic e) => .panic e
-    | some .outOfFuel => .outOfFuel
+    | some x => do
+      let (r, rest) ← x
+      let rs ← records fuel rest
+      pure (r :: rs)
 
 /-- hook `verif::sst_from_stream`: the first SST (0x00FC) record met while iterating is parsed; a framing
     error before it is returned as such -/
@@ -247,24 +219,18 @@ def sstFromStream : Nat → Bytes → Res (List (List Nat))
   | fuel + 1, s =>
     match nextRecord s with
     | none => .err "NoSst"
-    | some (.ok (r, rest)) => if r.typ = 0xFC then parseSst r else sstFromStream fuel rest
-    | some (.err e) => .err e
-    | some (.panic e) => .panic e
-    | some .outOfFuel => .outOfFuel
+    | some x => do
+      let (r, rest) ← x
+      if r.typ = 0xFC then parseSst r else sstFromStream fuel rest
 
 /-- hook `verif::c12_skip`: `skip n` on the first record; the fragments left afterwards -/
 def skipFirst (s : Bytes) (n : Nat) : Res (List Bytes) :=
   match nextRecord s with
   | none => .err "NoRecord"
-  | some (.ok (r, _)) =>
-    match skip n r.data r.cont with
-    | .ok r => .ok (r.data :: r.cont)
-    | .err e => .err e
-    | .panic e => .panic e
-    | .outOfFuel => .outOfFuel
-  | some (.err e) => .err e
-  | some (.panic e) => .panic e
-  | some .outOfFuel => .outOfFuel
+  | some x => do
+    let (r, _) ← x
+    let r ← skip n r.data r.cont
+    pure (r.data :: r.cont)
 
 /-! ### Strings that live inside one record -/
 
